@@ -14,6 +14,7 @@ from vlib import Machinery, log
 # ---------------------------------------------------------------- lexeme table (bytes live here, lengths go to TLC)
 LEX = {
     "n_x": b"x", "n_VAR": b"VAR_A", "n_acc": "été".encode(), "n_my": b"mytask", "n_long": b"build_all", "n_T": b"T", "n_us": b"_priv",
+    "n_tasks": b"tasks", "n_taskdir": b"task_dir", "n_heb": "task\u05d0".encode(), "n_cyr": "\u0441\u0431\u043e\u0440\u043a\u0430".encode(), "n_cjk": "\u4efb\u52a1".encode(),
     "s_ago": b"a.go", "s_empty": b"", "s_glob": b"**/*.go", "s_uni": "hé".encode(), "s_hash": b"a#b", "s_sp": b"a b", "s_brace": b"a{b",
     "s_dir": b"./bin/main", "s_dot": b".", "s_tpl": b"{{.X}}",
     "c_plain": b" hello", "c_empty": b"", "c_ws": b"  ", "c_kw": b" task t() {", "c_nosp": b"nospace", "c_uni": " café".encode(), "c_hash": b" a # b",
@@ -214,11 +215,11 @@ EXTRA_MC = []
 
 
 # ---------------------------------------------------------------- loose layouts (accepted-but-unusual texts) for C07 C11 C15 (and C08 C16)
-L_IDENTS = [b"x", b"tasks", b"taskx", b"task", b"join", b"T", "é".encode(), b"_a", b"mytask", b"exec", b"task_a"]
+L_IDENTS = [b"x", b"tasks", b"taskx", b"task", b"join", b"T", "é".encode(), b"_a", b"mytask", b"exec", b"task_a", "task\u05d0".encode(), "\u05d0".encode()]
 L_STRS = [b'"a"', b'""', b'"task"', b'"*.go"', b'"a b"']
 L_COMMENTS = [b" c", b"", b" ", b"x", b" task t() {", b"#"]
-L_CMDS = [b"go build", b"x", b"echo {{.x}}", b"ls -l", b"task x"]
-L_SEPS = [b"", b"", b" ", b" ", b"\n", b"\n", b"\t", b"  ", b"\n\n", b" \n", b"\r\n"]
+L_CMDS = [b"go build", b"x", b"echo {{.x}}", b"ls -l", b"task x", b"echo a\r", b"ls \r", b"a\r\r", b"b  "]
+L_SEPS = [b"", b"", b" ", b" ", b"\n", b"\n", b"\t", b"  ", b"\n\n", b" \n", b"\r\n", b"\r", b"\r "]
 
 
 def loose_text(rnd):
@@ -298,8 +299,8 @@ EXTRA.append(loose)
 # ---------------------------------------------------------------- LexSM / ParseSM: model check + export of every reachable finished scan
 CLS = {"sp": b" ", "tab": b"\t", "nl": b"\n", "cr": b"\r", "t": b"t", "a": b"a", "s": b"s", "k": b"k", "x": b"x", "us": b"_",
        "hash": b"#", "q": b'"', "lp": b"(", "rp": b")", "lb": b"{", "rb": b"}", "com": b",", "col": b":", "eq": b"=", "min": b"-",
-       "gt": b">", "dot": b".", "E1": b"\xc3", "E2": b"\xa9", "bad": b"\xff"}
-ALPHA14 = ["sp", "nl", "cr", "t", "a", "s", "k", "hash", "q", "lp", "rp", "lb", "rb", "E1"]
+       "gt": b">", "dot": b".", "E1": b"\xc3", "E2": b"\xa9", "F1": b"\xd7", "F2": b"\x90", "bad": b"\xff"}
+ALPHA14 = ["sp", "nl", "cr", "t", "a", "s", "k", "hash", "q", "lp", "rp", "lb", "rb", "F1", "F2"]
 ALPHA19 = ["sp", "nl", "cr", "t", "a", "s", "k", "x", "hash", "q", "lp", "rp", "lb", "rb", "col", "eq", "min", "gt", "com"]
 
 
